@@ -541,6 +541,27 @@ func (p *Prog) modset(e *Engine, fn *ssa.Function) map[string]bool {
 		for _, b := range f.Blocks {
 			for _, in := range b.Instrs {
 				e.instrEffects(in, func(*ssa.Alloc) {}, m, func(g *ssa.Function) { calls = append(calls, g) }, func() {})
+				// frames of assumed contracts (library functions, interface methods) used inside the body: what
+				// they modify (e.g. the read cursor of a stream) is modified by this function too
+				if ci, ok := in.(ssa.CallInstruction); ok {
+					cc := ci.Common()
+					var lc *Contract
+					if cc.IsInvoke() {
+						lc = p.ifaceContracts[p.ifaceKey(cc.Value.Type(), cc.Method.Name())]
+					} else if g := cc.StaticCallee(); g != nil && !p.inRepo(g) {
+						lc = p.libContracts[stripTypeArgs(g.String())]
+						if lc == nil && g.Origin() != nil {
+							lc = p.libContracts[stripTypeArgs(g.Origin().String())]
+						}
+					}
+					if lc != nil {
+						for _, mm := range lc.Modifies {
+							for _, h := range e.staticModHeapsLib(lc, mm) {
+								m[h] = true
+							}
+						}
+					}
+				}
 			}
 		}
 	}
